@@ -26,10 +26,15 @@
  *                                XFRM_STREAM_ERROR (no further library call)
  *  C15.adapter.end_iff_lib_end   XFRM_STREAM_END <=> the library reported the
  *                                end of the compressed stream in this call
- *  C15.adapter.finish_progress   flush_mode FULL, room in `out`: the call is
- *                                not a silent no-op - it reaches END, makes
- *                                progress, or fails (needed for the trailer
- *                                and for draining at end of input)
+ *  C15.adapter.finish_reaches_lib  flush_mode FULL, room in `out`: the
+ *                                library is consulted at least once even when
+ *                                no input is left - otherwise pending output
+ *                                and the stream trailer can never be produced
+ *                                and the end of a stream is never seen
+ *  C15.adapter.no_spin           a library call that made no progress and
+ *                                asked to go on is not simply repeated
+ *  C15.adapter.buffer_full_meaning  BUFFER_FULL only when the room ran out
+ *                                or, while flushing, the input did
  *  C15.adapter.status_domain     result is ERROR, OK, END or BUFFER_FULL
  */
 #ifndef ADAPTER_COMMON_H
@@ -48,6 +53,7 @@ uint32_t g_c, g_p;        /* consumed / produced by the library so far */
 unsigned g_lib_calls;
 bool g_lib_failed;        /* a library call returned a failure code */
 bool g_lib_end;           /* a library call reported end of stream */
+bool g_stalled;           /* last call: "go on" without any progress */
 bool g_compress;
 int g_mode;               /* effective flush mode (out of range = NONE) */
 
@@ -56,14 +62,28 @@ int g_mode;               /* effective flush mode (out of range = NONE) */
 static inline void lib_enter(const void *next_in, size_t avail_in,
 			     void *next_out, size_t avail_out, bool compress)
 {
+#ifdef ADAPTER_LIB_CONTINUES_AFTER_END
+	/* libzstd starts the next frame by itself */
+	VERIF_ASSERT(!g_lib_failed, "C15.adapter.error_propagates");
+#else
 	VERIF_ASSERT(!g_lib_failed && !g_lib_end, "C15.adapter.error_propagates");
+#endif
 	VERIF_ASSERT((const uint8_t *)next_in == g_in0 + g_c &&
 		     avail_in == g_in_size0 - g_c &&
 		     (uint8_t *)next_out == g_out0 + g_p &&
 		     avail_out == g_out_size0 - g_p && compress == g_compress,
 		     "C15.adapter.lib_args");
+#ifndef ADAPTER_LIB_BOUNDS_STALLS
+	VERIF_ASSERT(!g_stalled, "C15.adapter.no_spin");
+#endif
 	VERIF_ASSUME(g_lib_calls < LIBCALLS);
 	g_lib_calls++;
+}
+
+/* to be called by the library stub with its verdict */
+static inline void lib_leave(uint32_t c, uint32_t p, bool goes_on)
+{
+	g_stalled = goes_on && c == 0 && p == 0;
 }
 
 static inline void lib_progress(size_t avail_in, size_t avail_out,
@@ -76,6 +96,17 @@ static inline void lib_progress(size_t avail_in, size_t avail_out,
 	g_p += *p;
 }
 
+#ifdef ADAPTER_LIB_CONTINUES_AFTER_END
+#define ADAPTER_END_CHECK(ret) ((void)0) /* stated by the harness itself */
+#else
+#define ADAPTER_END_CHECK(ret)                                                  \
+	do {                                                                    \
+		if (!g_lib_failed)                                              \
+			VERIF_ASSERT(((ret) == 1) == g_lib_end,                 \
+				     "C15.adapter.end_iff_lib_end");            \
+	} while (0)
+#endif
+
 #define ADAPTER_POST(ret, in_read, out_written, r0, w0)                        \
 	do {                                                                    \
 		VERIF_ASSERT((ret) >= -1 && (ret) <= 2,                        \
@@ -87,10 +118,13 @@ static inline void lib_progress(size_t avail_in, size_t avail_out,
 				     "C15.adapter.offsets");                    \
 		if (g_lib_failed)                                               \
 			VERIF_ASSERT((ret) == -1, "C15.adapter.error_propagates"); \
-		if (!g_lib_failed)                                              \
-			VERIF_ASSERT(((ret) == 1) == g_lib_end,                 \
-				     "C15.adapter.end_iff_lib_end");            \
-		if (g_mode == 2 && g_out_size0 > 0 && ((ret) == 0 || (ret) == 2)) \
-			VERIF_ASSERT(g_c + g_p > 0, "C15.adapter.finish_progress"); \
+		ADAPTER_END_CHECK(ret);                                         \
+		if ((ret) == 2)                                                 \
+			VERIF_ASSERT(g_p == g_out_size0 ||                      \
+				     (g_mode == 2 && g_c == g_in_size0),        \
+				     "C15.adapter.buffer_full_meaning");        \
+		if (g_mode == 2 && g_out_size0 > 0 && (ret) != -1)              \
+			VERIF_ASSERT(g_lib_calls >= 1,                          \
+				     "C15.adapter.finish_reaches_lib");         \
 	} while (0)
 #endif
